@@ -425,6 +425,78 @@ func TestVerifC08(t *testing.T) {
 			rep.Violate("C08/admin-memo/demoted-admin-served-while-refresh-in-flight", "after the memo lifetime a demoted administrator's second request was served as administrator while the first request's directory lookup was still in flight",
 				map[string]interface{}{"first_status": c1, "second_status": c2, "second_answered_before_directory": early != 0})
 		}
+		// requests of different users whose memo entries have all expired, in flight together while the directory answers
+		// slowly (or fails): whatever the administrator's own lookup returns, it is the administrator's verdict only -
+		// a plain user asking at that moment is not an administrator
+		for round, mode := range []string{"up", "up", "error", "up"} {
+			dir.SetAll("up")
+			dir.SetGroups("grpadmin", []string{"km-admins"})
+			clk.Advance(6 * time.Minute)
+			probe(fmt.Sprintf("cross-user-round-%d/member", round), "grpadmin", 200, false)
+			clk.Advance(5*time.Minute + 2*time.Second) // every memo entry is now stale
+			release := dir.Hold()
+			plain := []string{"alice", "bob", fmt.Sprintf("visitor%d", round)}
+			adminFirst := round != 1
+			type answer struct {
+				user string
+				code int
+			}
+			answers := make(chan answer, 8)
+			ask := func(user string) { go func() { answers <- answer{user, usersAs(user)} }() }
+			waitParked := func(n int) bool {
+				for i := 0; i < 150 && dir.Waiting() < n; i++ {
+					time.Sleep(10 * time.Millisecond)
+				}
+				return dir.Waiting() >= n
+			}
+			var parked bool
+			if adminFirst {
+				ask("grpadmin")
+				parked = waitParked(1)
+				for _, u := range plain {
+					ask(u)
+				}
+			} else {
+				ask(plain[0])
+				parked = waitParked(1)
+				ask("grpadmin")
+				for _, u := range plain[1:] {
+					ask(u)
+				}
+			}
+			// give the later requests time to reach the directory (or whatever they wait on), then let it answer
+			time.Sleep(300 * time.Millisecond)
+			inDirectory := dir.Waiting()
+			dir.SetAll(mode) // "error": the lookups that are waiting fail when the directory finally answers
+			release()
+			got := map[string]int{}
+			for i := 0; i < len(plain)+1; i++ {
+				select {
+				case a := <-answers:
+					got[a.user] = a.code
+				case <-time.After(60 * time.Second):
+					rep.Inconc("cross-user admin lookups: a request did not return after the directory was released")
+				}
+			}
+			dir.SetAll("up")
+			rep.Eval(fmt.Sprintf("admin-memo|cross-user-in-flight|directory=%s|admin-first=%v|lookups-in-directory=%d|admin=%d", mode, adminFirst, inDirectory, got["grpadmin"]))
+			rep.Count("admin_memo_probes", 1)
+			if !parked {
+				rep.Obs(fmt.Sprintf("cross-user in flight: the first lookup was not seen waiting in the directory (round %d not judged)", round))
+				continue
+			}
+			rep.Count("admin_cross_user_rounds", 1)
+			for _, u := range plain {
+				if got[u] == 200 {
+					rep.Violate("C08/admin-memo/plain-user-served-as-administrator-while-another-lookup-in-flight",
+						fmt.Sprintf("GET /users/ as %s answered 200 while the administrator's directory lookup was in flight (directory %s, administrator asked first: %v)", u, mode, adminFirst),
+						map[string]interface{}{"statuses": got, "directory": mode, "admin_first": adminFirst, "lookups_in_directory": inDirectory})
+				}
+			}
+			if mode == "up" && got["grpadmin"] != 200 {
+				rep.Obs(fmt.Sprintf("cross-user in flight: the administrator was answered %d while a plain user's lookup was in flight (admin asked first: %v; availability, not judged)", got["grpadmin"], adminFirst))
+			}
+		}
 		// an automation admin may mint automation certificates and nothing else, in whichever order the two kinds of
 		// request arrive within one memo lifetime and after it
 		mintAs := func(user string) int {
@@ -492,6 +564,7 @@ func TestVerifC08(t *testing.T) {
 	rep.Floor("forbidden_cells", 300)
 	rep.Floor("allowed_cells", 100)
 	rep.Floor("admin_memo_probes", 12)
+	rep.Floor("admin_cross_user_rounds", 4)
 }
 
 // c08GitDB: administrators by group with the GitDB user-information source (a local repository directory the daemon
